@@ -343,10 +343,12 @@ class _VariablesInterpolation(configparser.ExtendedInterpolation):
 
   variables_section = "Variables"
 
-  def before_get(self, parser, section, option, value, defaults):
+  def _interpolate_some(self, parser, option, accum, rest, section, map, depth):
+    # Chained in at every level of the recursion, so that a variable may itself be defined through
+    # another variable ('a : ${b}').
     if parser.has_section(self.variables_section):
-      defaults = collections.ChainMap(defaults, parser._sections[self.variables_section])
-    return super(_VariablesInterpolation, self).before_get(parser, section, option, value, defaults)
+      map = collections.ChainMap(map, parser._sections[self.variables_section])
+    return super(_VariablesInterpolation, self)._interpolate_some(parser, option, accum, rest, section, map, depth)
 
 
 class _RawConfigParser(configparser.RawConfigParser):
